@@ -1,5 +1,6 @@
 import Driver.Core
 import Driver.Shape
+import Driver.GenSup
 import IGVerif.Spec.Shape
 namespace Drv
 open Lean IGVerif
@@ -48,7 +49,7 @@ def genC03Cases (tier : String) (seed : Nat) : Array Case := Id.run do
   let mut rng : Rng := ⟨UInt64.ofNat (seed * 32452843 + 5)⟩
   for i in [0:n] do
     let cfg : NestCfg := { depth := if i % 3 = 0 then 1 else 0, pairs := true }
-    let (s, rng') := genNested cfg rng
+    let (s, rng') := genNestedSup cfg rng
     rng := rng'
     let c := parseCase s!"c03-r{i}" (if supported s then "pairs-supported" else "pairs-unsupported") s
     out := out.push { c with note := Json.mkObj [("kf", (kfParse s : Json)), ("chains", c.note)] }
